@@ -142,7 +142,7 @@ func reproduces(v *Violation, out *replayOut, allocLimitMB float64) bool {
 	case "unwind":
 		return out.Outcome == "timeout" || out.Outcome == "fatal"
 	case "alloc":
-		return out.Outcome == "fatal" || (out.Outcome == "panic" && (strings.Contains(out.Msg, "makeslice") || strings.Contains(out.Msg, "out of memory") || strings.Contains(out.Msg, "out of range"))) || out.AllocMB > allocLimitMB
+		return out.Outcome == "fatal" || out.Outcome == "timeout" || (out.Outcome == "panic" && (strings.Contains(out.Msg, "makeslice") || strings.Contains(out.Msg, "out of memory") || strings.Contains(out.Msg, "out of range"))) || out.AllocMB > allocLimitMB
 	}
 	return false
 }
